@@ -14,6 +14,24 @@ let () =
         let m = M.c20_topo g req in
         List [of_opt (of_list of_nat) m; of_bool (M.c20_topo_ok g req out)]
     | _ -> failwith "c20-topo: bad case");
+  Registry.register "topo-m" (fun s ->
+    (* model only, for graphs on which the quartic oracle is out of reach: ((adj ...) (req ...)) *)
+    match list s with
+    | adj :: req :: _ ->
+        let g = list_ (pair_ nat_ (list_ nat_)) adj in
+        let req = list_ nat_ req in
+        List [of_opt (of_list of_nat) (M.c20_topo g req)]
+    | _ -> failwith "c20-topo-m: bad case");
+  Registry.register "kahn-m" (fun s ->
+    match list s with
+    | order :: deps :: _ ->
+        let order = list_ nat_ order in
+        let deps = list_ (pair_ nat_ nat_) deps in
+        (match M.c20_kahn order deps with
+          | M.Ok l -> List [Atom "ok"; of_list of_nat l]
+          | M.Cycle r -> List [Atom "cycle"; of_list of_nat r]
+          | M.OutOfFuel -> List [Atom "out-of-fuel"])
+    | _ -> failwith "c20-kahn-m: bad case");
   Registry.register "kahn" (fun s ->
     (* ((order ...) (deps (f t) ...) res) with res = () for Err, ((..)) for Ok *)
     match list s with
